@@ -267,12 +267,16 @@ func c08Bases(tier string) [][]tok {
 	for _, t := range []string{
 		"S1F1 W H->E Msg < U1 256 257 1 > .", "S1F1 < I1 200 300 -200 > .", "S1F1 < B 256 256 256 > .", "S1F1 < F4 1e39 1e39 > .", "S1F1 < L < U2 70000 > < U2 70000 > > .",
 		"S1F1 < L x x x > .", "S1F1 < A 200 200 > .", "S1F1 < U8 -1 -1 > .", "S1F3 . S1F4 W . S1F6 W .", "S300F1 < U1 256 256 > . S300F1 .",
+		"S1F1 < B 0x100 0b100000000 0o400 0xff > .", "S1F1 < U1 0x100 0xFF > .", "S1F1 < I1 -0x81 0x7f > .", "S1F1 < A 0x80 0x41 > .", "S1F1 < U2 0x10000 0xffff 0b1 > .",
+		"S1F1 < F4 1e39 1E38 > .", "S1F1 < I8 0x8000000000000000 -0x8000000000000000 > .", "S1F1 < B 0b2 0xg > .", "S1F1 < F8 0x10 1e400 > .", "S1F1 < U4 0o40000000000 0o7 > .",
 	} {
 		var tk []tok
 		for _, f := range strings.Fields(t) {
 			k := byte('o')
 			if f[0] >= '0' && f[0] <= '9' || f[0] == '-' {
 				k = 'n'
+			} else if len(tk) > 0 && tk[len(tk)-1].s == "<" {
+				k = 'k' // type name
 			}
 			tk = append(tk, tok{f, k})
 		}
